@@ -31,11 +31,11 @@ DETECT = {
     "PH-.threshold": ("PageHinkley", "threshold", [1, 2, 5, 9, 20]),
     "DDM.drift_scale": ("DDM", "drift_scale", [2.0, 2.5, 3.0, 3.5, 5.0]),
     "EDDM.drift_thresh": ("EDDM", "drift_thresh", [0.94, 0.9, 0.8, 0.6]),
-    "STEPD.alpha_drift": ("STEPD", "alpha_drift", [0.05, 0.02, 0.003, 0.0001]),
+    "STEPD.alpha_drift": ("STEPD", "alpha_drift", [0.8, 0.6, 0.05, 0.02, 0.003, 0.0001]),
     "LFR.detect_level": ("LinearFourRates", "detect_level", [0.1, 0.05, 0.02, 0.005]),
-    "KdqB.alpha": ("KdqTreeBatch", "alpha", [0.4, 0.3, 0.2, 0.1, 0.06, 0.05, 0.04, 0.02, 0.01]),
-    "KdqS.alpha": ("KdqTreeStreaming", "alpha", [0.4, 0.3, 0.2, 0.1, 0.06, 0.05, 0.04, 0.02, 0.01]),
-    "NNDVI.alpha": ("NNDVI", "alpha", [0.4, 0.3, 0.2, 0.1, 0.05, 0.04, 0.01]),
+    "KdqB.alpha": ("KdqTreeBatch", "alpha", [0.9, 0.7, 0.4, 0.3, 0.2, 0.1, 0.06, 0.05, 0.04, 0.02, 0.01]),
+    "KdqS.alpha": ("KdqTreeStreaming", "alpha", [0.9, 0.7, 0.4, 0.3, 0.2, 0.1, 0.06, 0.05, 0.04, 0.02, 0.01]),
+    "NNDVI.alpha": ("NNDVI", "alpha", [0.9, 0.7, 0.6, 0.4, 0.3, 0.2, 0.1, 0.05, 0.04, 0.01]),
     "HDDDM.tstat": ("HDDDM", "significance", [0.5, 0.2, 0.05, 0.01]),
     "HDDDM.stdev": ("HDDDM", "significance", [0.25, 0.5, 1.0, 2.0, 3.0]),
     "CDBD.tstat": ("CDBD", "significance", [0.5, 0.2, 0.05, 0.01]),
@@ -45,7 +45,7 @@ DETECT = {
 WARN = {
     "DDM.warning_scale": ("DDM", "warning_scale", [2.9, 2.5, 2.0, 1.5, 1.0]),
     "EDDM.warning_thresh": ("EDDM", "warning_thresh", [0.9, 0.93, 0.95, 0.99]),
-    "STEPD.alpha_warning": ("STEPD", "alpha_warning", [0.01, 0.05, 0.1, 0.3]),
+    "STEPD.alpha_warning": ("STEPD", "alpha_warning", [0.01, 0.05, 0.1, 0.3, 0.6, 0.8]),
     "LFR.warning_level": ("LinearFourRates", "warning_level", [0.05, 0.1, 0.2, 0.4]),
 }
 COST = {"LFR.detect_level": 0.25, "LFR.warning_level": 0.25, "KdqS.alpha": 0.4, "NNDVI.alpha": 0.5, "KdqB.alpha": 1.0}
